@@ -22,7 +22,7 @@ run_area() {
   git -C $W reset -q --hard
 }
 export -f run_area; export BIN HEAD
-ls /tmp/rf/out | xargs -P 4 -I{} bash -c 'run_area {}'
+ls /tmp/rf/out | grep -E "${AREAS:-.}" | xargs -P ${PAR:-4} -I{} bash -c 'run_area {}'
 total=$(cat /tmp/rfall/*.out | grep -c 'alarms:'); bad=$(cat /tmp/rfall/*.out | grep 'alarms:' | grep -vc 'alarms: \[\]')
 echo "refactor patches: $total run, $bad with alarms"
 cat /tmp/rfall/*.out | grep 'alarms:' | grep -v 'alarms: \[\]'
